@@ -217,7 +217,7 @@ def cases(draw):
 
 
 def jobs(tier, seed):
-    n, shards = (2000, 8) if tier == "quick" else (32000, 16)
+    n, shards = (2000, 8) if tier == "quick" else (128000, 16)
     out = [{"name": "grid", "kind": "grid"}]
     out += [{"name": f"hyp-{i}", "kind": "hyp", "seed": seed * 1000 + i, "n": n // shards} for i in range(shards)]
     return out
